@@ -143,6 +143,157 @@ func c12Texts(thorough bool) ([]*model.Expr, [][]string) {
 	return trees, gbs
 }
 
+// c12Render reads a result set completely.
+func c12Render(rows *sql.Rows) string {
+	cols, _ := rows.Columns()
+	s, err := scanAll(rows)
+	if err != nil {
+		return "scan error: " + err.Error()
+	}
+	return fmt.Sprintf("%v %s", cols, s)
+}
+
+type c12Multi struct {
+	Rows  []model.Row `json:"rows"`
+	Opt   int         `json:"opt"`
+	Texts []string    `json:"texts"`
+	Args  [][]any     `json:"args,omitempty"`
+	Order string      `json:"order"`
+	Kind  string      `json:"kind"`
+}
+
+func (c c12Multi) sig() string {
+	return fmt.Sprintf("%s rows=%s dsn-options=%q texts=%q args=%v order=%s", c.Kind, rowsSig(c.Rows), c12DSNOpts[c.Opt], c.Texts, c.Args, c.Order)
+}
+
+func c12OverlapTexts() []string {
+	return []string{`a = "x" ; a`, `a = "1" ; c`, `^ a = "zz" ; b`, `a = "x" | b = "y"`, `a = "1"`, `^ b = "nope" ; a , b`, `a = "nomatch" ; a`, `a = "x" & b = "y" ; b`}
+}
+
+// c12One: each text alone, as the reference for the overlapping executions.
+func c12One(db *sql.DB, text string, args ...any) string {
+	rows, err := db.Query(text, args...)
+	if err != nil {
+		return "error"
+	}
+	return c12Render(rows)
+}
+
+// c12Overlap: two result sets of one handle open at the same time (the pool hands the same shared file connection to
+// both), read in both orders: each must equal what the query returns alone.
+func c12Overlap(w *c12World, rows []model.Row, opt int, cov *rt.Coverage) (string, c12Multi) {
+	texts := c12OverlapTexts()
+	alone := map[string]string{}
+	for _, t := range texts {
+		alone[t] = c12One(w.db, t)
+	}
+	for _, t1 := range texts {
+		for _, t2 := range texts {
+			for _, order := range []string{"first-then-second", "second-then-first"} {
+				c := c12Multi{Kind: "overlap", Rows: rows, Opt: opt, Texts: []string{t1, t2}, Order: order}
+				cov.Add("evaluations", 1)
+				cov.Add("distinct_nontrivial", 1)
+				cov.Add("overlapping_result_sets", 1)
+				if m := c12PlayMulti(w, c, alone); m != "" {
+					return m, c
+				}
+			}
+		}
+	}
+	return "", c12Multi{}
+}
+
+func c12PlayMulti(w *c12World, c c12Multi, alone map[string]string) (viol string) {
+	defer func() {
+		if r := recover(); r != nil {
+			viol = fmt.Sprintf("panic: %v", r)
+		}
+	}()
+	if alone == nil {
+		alone = map[string]string{}
+		for _, t := range c.Texts {
+			alone[t] = c12One(w.db, t)
+		}
+	}
+	if c.Kind == "overlap" {
+		r1, e1 := w.db.Query(c.Texts[0])
+		r2, e2 := w.db.Query(c.Texts[1])
+		var g1, g2 string
+		read := func(r *sql.Rows, e error) string {
+			if e != nil {
+				return "error"
+			}
+			return c12Render(r)
+		}
+		if c.Order == "first-then-second" {
+			g1, g2 = read(r1, e1), read(r2, e2)
+		} else {
+			g2, g1 = read(r2, e2), read(r1, e1)
+		}
+		if g1 != alone[c.Texts[0]] {
+			return fmt.Sprintf("with a second result set open, %q returned %s; alone it returns %s", c.Texts[0], g1, alone[c.Texts[0]])
+		}
+		if g2 != alone[c.Texts[1]] {
+			return fmt.Sprintf("opened while another result set was open, %q returned %s; alone it returns %s", c.Texts[1], g2, alone[c.Texts[1]])
+		}
+		return ""
+	}
+	// bound: a prepared statement executed once per argument list, and the direct path, against the literal text
+	st, err := w.db.Prepare(c.Texts[0])
+	if err != nil {
+		return "Prepare failed: " + err.Error()
+	}
+	defer st.Close()
+	for i, a := range c.Args {
+		lit := c.Texts[1+i]
+		want := c12One(w.db, lit)
+		rows, err := st.Query(sqlArgs(a)...)
+		got := "error"
+		if err == nil {
+			got = c12Render(rows)
+		}
+		if got != want {
+			return fmt.Sprintf("execution #%d of the prepared statement with %v returned %s; the literal query %q returns %s", i+1, a, got, lit, want)
+		}
+		if got2 := c12One(w.db, c.Texts[0], sqlArgs(a)...); got2 != want {
+			return fmt.Sprintf("direct query #%d with %v returned %s; the literal query %q returns %s", i+1, a, got2, lit, want)
+		}
+	}
+	return ""
+}
+
+// c12Bound: texts with placeholders (also below NOT and inside nested operators) bound to different arguments in turn.
+func c12Bound(w *c12World, rows []model.Row, opt int, cov *rt.Coverage) (string, c12Multi) {
+	type tpl struct {
+		text string
+		lit  func(a []any) string
+		n    int
+	}
+	q := func(v any) string { return `"` + strings.ReplaceAll(fmt.Sprint(v), `"`, `""`) + `"` }
+	tpls := []tpl{
+		{`a = $1 ; b`, func(a []any) string { return `a = ` + q(a[0]) + ` ; b` }, 1},
+		{`^ a = $1 ; b`, func(a []any) string { return `^ a = ` + q(a[0]) + ` ; b` }, 1},
+		{`^ ( a = $1 | b = $2 ) ; a`, func(a []any) string { return `^ ( a = ` + q(a[0]) + ` | b = ` + q(a[1]) + ` ) ; a` }, 2},
+		{`a = $2 & ^ b = $1`, func(a []any) string { return `a = ` + q(a[1]) + ` & ^ b = ` + q(a[0]) }, 2},
+	}
+	vals := []any{"x", "1", "y", "2", "zz"}
+	for _, t := range tpls {
+		lists := anyLists(vals, t.n, t.n)
+		for _, l1 := range lists {
+			for _, l2 := range lists {
+				c := c12Multi{Kind: "bound", Rows: rows, Opt: opt, Texts: []string{t.text, t.lit(l1), t.lit(l2), t.lit(l1)}, Args: [][]any{l1, l2, l1}}
+				cov.Add("evaluations", 1)
+				cov.Add("distinct_nontrivial", 1)
+				cov.Add("bound_argument_sequences", 1)
+				if m := c12PlayMulti(w, c, nil); m != "" {
+					return m, c
+				}
+			}
+		}
+	}
+	return "", c12Multi{}
+}
+
 type c12World struct {
 	db   *sql.DB
 	lib  *updog.Index
@@ -216,6 +367,14 @@ func c12Worker(ctx *rt.Ctx, job *rt.Job) []*rt.Violation {
 					}
 				}
 			}
+			if di < 4 {
+				if m, c := c12Overlap(w, rows, opt, ctx.Cov); m != "" {
+					vs = append(vs, rt.NewViolation("C12", "overlap", c.sig(), c, "%s", m))
+				}
+				if m, c := c12Bound(w, rows, opt, ctx.Cov); m != "" {
+					vs = append(vs, rt.NewViolation("C12", "bound", c.sig(), c, "%s", m))
+				}
+			}
 			w.close()
 			ctx.Cov.Add("dataset_dsn_pairs", 1)
 			if n%97 == 1 {
@@ -237,12 +396,27 @@ func c12Run(ctx *rt.Ctx) []*rt.Violation {
 	outs := rt.RunJobs(ctx, jobs, rt.SpawnOpt{})
 	vs := rt.Collect(ctx, outs, nil)
 	trees, gbs := c12Texts(ctx.Thorough())
-	ctx.Cov.Note("rule", fmt.Sprintf("%d datasets (4 fixed incl. rows lacking columns and odd strings + all 81 two-row datasets of the 9-shape space) x %d DSN option strings {-, preload} x {-, lrucache size 0, lrucache ample} x %d expressions x %d group-by lists (length 0..3, repeated and unknown columns): db.Query through database/sql compared with Index.Execute on a copy of the same file: Columns, ColumnTypes (TEXT.../BIGINT, string/int64), every row scanned into (string..., int64), order, counts, error iff the library errs; non-trivial = grouped queries", len(c12Datasets()), len(c12DSNOpts), len(trees), len(gbs)))
+	ctx.Cov.Note("rule", fmt.Sprintf("%d datasets (4 fixed incl. rows lacking columns and odd strings + all 81 two-row datasets of the 9-shape space) x %d DSN option strings {-, preload} x {-, lrucache size 0, lrucache ample} x %d expressions x %d group-by lists (length 0..3, repeated and unknown columns): db.Query through database/sql compared with Index.Execute on a copy of the same file: Columns, ColumnTypes (TEXT.../BIGINT, string/int64), every row scanned into (string..., int64), order, counts, error iff the library errs; on the 4 fixed datasets additionally every ordered pair of 8 texts as two result sets open at the same time on one handle (read in both orders), and 4 placeholder texts (also below NOT) executed through one prepared statement and the direct path with every ordered pair of argument lists (l1, l2, l1) against the literal text; non-trivial = grouped queries, overlap and bound cases", len(c12Datasets()), len(c12DSNOpts), len(trees), len(gbs)))
 	ctx.Assumef("the library result is the oracle (it is itself checked by C01/C02); query texts are produced by the formatter (checked by C10)")
 	return vs
 }
 
 func c12Replay(ctx *rt.Ctx, v *rt.Violation) *rt.Violation {
+	if v.Kind == "overlap" || v.Kind == "bound" {
+		var c c12Multi
+		if err := json.Unmarshal(v.Case, &c); err != nil {
+			rt.Harnessf("case: %v", err)
+		}
+		w, msg := newC12World(ctx, c.Rows, c.Opt)
+		defer w.close()
+		if msg != "" {
+			return rt.NewViolation("C12", v.Kind, c.sig()+" open", c, "%s", msg)
+		}
+		if m := c12PlayMulti(w, c, nil); m != "" {
+			return rt.NewViolation("C12", v.Kind, c.sig(), c, "%s", m)
+		}
+		return nil
+	}
 	var c c12Case
 	if err := json.Unmarshal(v.Case, &c); err != nil {
 		rt.Harnessf("case: %v", err)
